@@ -111,6 +111,8 @@ def run(rep):
     n = 1200 if rep.tier == "quick" else 40000
     cases = [c for _, c in load_corpus(PID)] + [gen_case(rng) for _ in range(n)]
     nbad, mismatch = evaluate(rep, cases)
+    from props.toolscommon import tool_cli_stage
+    tool_cli_stage(rep, "bkld", random.Random(rep.seed + 909), 150 if rep.tier == "quick" else 5000)
     if (mismatch or rep.broken) and not rep.violations:
         # correspondence with the proved model broke (or a proof did): search harder for a failing round trip
         extra = [gen_case(rng) for _ in range(3000)]
@@ -123,7 +125,33 @@ def run(rep):
             rep.violation("; ".join(what), {"broken": rep.broken, "samples": rep.extra.get("model_diff_mismatch_samples")}, no_input=True)
 
 
+def replay_toolcli(rep, payload):
+    import fscheck
+    from props.toolscommon import model_ops
+    c = payload["case"]["toolcli"]
+    obs, op = fscheck.run_case(c, tool="bkld")
+    m = model_ops([{"op": "toolcli", "id": 0, "tool": "bkld", "entries": op["entries"], "cwd": op["cwd"], "env": {}, "opts": op["opts"]}]).get(0)
+    print(obs)
+    print(m)
+    return 1
+
+
+def replay_toolcli(rep, payload):
+    import fscheck
+    from props.toolscommon import model_ops
+    c = payload["case"]["toolcli"]
+    obs, op = fscheck.run_case(c, tool="bkld")
+    m = model_ops([{"op": "toolcli", "id": 0, "tool": "bkld", "entries": op["entries"], "cwd": op["cwd"], "env": {}, "opts": op["opts"]}]).get(0)
+    print(obs)
+    print(m)
+    return 1
+
+
 def replay(rep, payload):
+    if "toolcli" in payload.get("case", {}):
+        return replay_toolcli(rep, payload)
+    if "toolcli" in payload.get("case", {}):
+        return replay_toolcli(rep, payload)
     o = run_one(payload["case"])
     print(o)
     return 1 if o.get("fail") else 0
